@@ -171,6 +171,7 @@ fn push_owned<T: Elem>(out: &mut String, r: Option<T>, held: &mut Vec<T>) {
             out.push_str("S(");
             push_elem(out, &x as *const T);
             out.push(')');
+            x.on_return();
             held.push(x);
         }
     }
@@ -346,6 +347,7 @@ where
                         ret.push('(');
                         push_elem(ret, &x as *const T);
                         ret.push(')');
+                        x.on_return();
                         held.push(x);
                     }
                 }
@@ -639,6 +641,7 @@ pub fn run_op<const N: usize, T: Elem>(
                     ret.push_str("Err(");
                     push_elem(ret, &x as *const T);
                     ret.push(')');
+                    x.on_return();
                     held.push(x);
                 }
             });
@@ -1148,6 +1151,21 @@ pub fn check_views<const N: usize, T: Elem>(buf: &CircularBuffer<N, T>) -> Optio
     }
     if size > N {
         return Some("size>N");
+    }
+    if T::KIND == b't' {
+        // every element in the window must be alive, owned by the buffer, and there only once
+        for i in 0..size {
+            let (id, _) = unsafe { T::raw(base.add(slot_at(start, i, N))) };
+            if !is_live(id) {
+                return Some("dead-element-in-window");
+            }
+            for j in 0..i {
+                let (id2, _) = unsafe { T::raw(base.add(slot_at(start, j, N))) };
+                if id2 == id {
+                    return Some("duplicate-element-in-window");
+                }
+            }
+        }
     }
     let r = guard(|| {
         silently(|| {
